@@ -159,7 +159,8 @@ func c04Scenario(r *sim.Run) {
 
 	var sess []*c04Session
 	others := 0
-	if tp.Choose("mode", 2) == 1 {
+	enumerated := tp.Choose("mode", 2) == 1
+	if enumerated {
 		pi := tp.Choose("paramset", len(c04Params)+len(c04ObfsParams))
 		c1 := tp.Choose("cut1", 150)
 		c2 := tp.Choose("cut2", 150)
@@ -390,6 +391,27 @@ func c04Scenario(r *sim.Run) {
 				return
 			}
 			se.c = c
+			if !enumerated && tp.Prob("early-attempt-during-probe", 1, 5) {
+				// somebody connects to the phantom while the registration is still being validated (the
+				// client's own too-early attempt, a prober, another client of the same phantom): the
+				// worker has tracked the registration and waits for the liveness probe
+				w.holdProbes.Store(true)
+				w.settle()
+				w.publish(c.regMessage(nil))
+				w.settle()
+				ec := w.open(c.phantom(v6), simnet.TCP("198.51.100.77", 41000+i))
+				stWriteSegments(ec.H, c04Data(90+i, 40), nil, nil)
+				w.settle()
+				ec.H.Close()
+				for k := 0; k < 20 && !ec.returned; k++ {
+					w.settle()
+					time.Sleep(time.Second)
+				}
+				w.holdProbes.Store(false)
+				w.settle()
+				r.Probe("early_attempt_before_validation")
+				continue
+			}
 			w.register(c.regMessage(nil))
 		}
 		for i := 0; i < others; i++ {
